@@ -10,6 +10,8 @@
 #   prefix_upto / from_var   sub-translation of the integer part of a function with a float part
 #   prop / theorem           the property the function is anchored in and its tie theorem
 _PTP = ("PTPTime", [("seconds", "int"), ("nanoseconds", "int")])
+_GOLAY_S = ("Golay", [("SyndromeTable", "ints")])
+_GOLAY_SC = ("Golay", [("SyndromeTable", "ints"), ("CorrectTable", "ints")])
 SRC = [
   dict(file="AcraNetwork/SimpleEthernet.py", lean="SimpleEthernet", func="ones_comp_add16",
        params={"num1": "int", "num2": "int"}, prop="C07", theorem="src_ones_comp_add16"),
@@ -48,4 +50,12 @@ SRC = [
        prop="C07", theorem="src_get_checksum_buf"),
   dict(file="AcraNetwork/IRIG106/Chapter11/__init__.py", lean="Chapter11", func="get_checksum_byte_buf",
        prop="C07", theorem="src_get_checksum_byte_buf"),
+  dict(file="AcraNetwork/Golay.py", lean="Golay", func="Golay._init_Table",
+       prop="C11", theorem="src_Golay_init_Table"),
+  dict(file="AcraNetwork/Golay.py", lean="Golay", func="Golay._syndrome2",
+       params={"self": _GOLAY_S, "v1": "int", "v2": "int"}, prop="C11", theorem="src_Golay_syndrome2"),
+  dict(file="AcraNetwork/Golay.py", lean="Golay", func="Golay._decode2",
+       params={"self": _GOLAY_SC, "v1": "int", "v2": "int"}, prop="C11", theorem="src_Golay_decode2"),
+  dict(file="AcraNetwork/Golay.py", lean="Golay", func="Golay._onesincode_old",
+       params={"code": "int", "size": "int"}, prop="C11", theorem="src_Golay_onesincode_old"),
 ]
